@@ -89,7 +89,7 @@ def check_case(case, acc):
             # mokapot remembers about that file must not leak into this analysis
             prev = df.copy()
             tgt = True if case["enc"] == "bool" else 1
-            keep = [i for i in range(len(prev)) if not labels[i]][:2]
+            keep = [i for i in range(len(prev)) if not labels[i]][::2]  # every second decoy keeps its flag
             prev["Label"] = [prev["Label"].iloc[i] if (labels[i] or i in keep) else tgt for i in range(len(prev))]
             try:
                 ds0 = make_dataset(prev, path, features=["f_key", "f2"], spectrum=spec)
